@@ -3,6 +3,7 @@ package main
 import (
 	"fmt"
 	"go/ast"
+	"go/constant"
 	"go/parser"
 	"go/token"
 	"go/types"
@@ -670,6 +671,10 @@ func (x *Exec) applyContract(env *evalEnv, n *ast.CallExpr, cu *FuncUnit, con *C
 		if cl.Kind == "ensures" {
 			x.st.assume(x.spec(ce, x.parseClause(cl)))
 		}
+		if cl.Kind == "assumes" {
+			x.st.assume(x.spec(ce, x.parseClause(cl)))
+			x.trustedUsed["assumed postcondition of "+short+" (not checked against its body): "+trunc(cl.Text, 160)] = true
+		}
 	}
 	return rs
 }
@@ -711,11 +716,17 @@ func (x *Exec) libCall(env *evalEnv, n *ast.CallExpr, fn *types.Func, full strin
 	switch full {
 	case "fmt.Printf", "fmt.Println", "fmt.Print":
 		args := x.evalArgs(env, n)
+		if full == "fmt.Printf" && len(n.Args) > 0 {
+			if bl, ok := ast.Unparen(n.Args[0]).(*ast.BasicLit); ok {
+				x.emitSites = append(x.emitSites, &emitSite{Ord: len(x.emitSites), Format: bl.Value, Args: args, St: x.st.clone(), Pos: n.Pos()})
+			}
+		}
 		x.effects = append(x.effects, effectEvent{Name: "print", Pos: n.Pos(), St: x.st})
 		x.logPrint(n, args)
 		return x.freshResults(sig, "fmt")
 	case "fmt.Sprintf", "fmt.Sprint":
 		args := x.evalArgs(env, n)
+		defer func() { _ = args }()
 		format := ""
 		if full == "fmt.Sprintf" {
 			if bl, ok := ast.Unparen(n.Args[0]).(*ast.BasicLit); ok {
@@ -727,6 +738,37 @@ func (x *Exec) libCall(env *evalEnv, n *ast.CallExpr, fn *types.Func, full strin
 			}
 		}
 		x.emitSites = append(x.emitSites, &emitSite{Ord: len(x.emitSites), Format: format, Args: args, St: x.st.clone(), Pos: n.Pos()})
+		// fmt.Sprintf is a pure function of its arguments: the same format and values give the same text
+		if t, ok := x.pureExt("fmt_"+fn.Name(), args, tString); ok {
+			// the literal characters of the format are part of the result: a lower bound for its length
+			if full == "fmt.Sprintf" {
+				f, known := "", false
+				if tv, ok := env.info.Types[n.Args[0]]; ok && tv.Value != nil {
+					f, known = constant.StringVal(tv.Value), true
+				} else {
+					for lit, name := range x.ctx.strLits {
+						if name == args[0].S {
+							f, known = lit, true
+						}
+					}
+				}
+				if known {
+					lit := 0
+					for i := 0; i < len(f); i++ {
+						if f[i] == '%' && i+1 < len(f) {
+							if f[i+1] == '%' {
+								lit++
+							}
+							i++
+							continue
+						}
+						lit++
+					}
+					x.st.assume(fmt.Sprintf("(>= (strlen %s) %d)", t, lit))
+				}
+			}
+			return []Val{{t, tString}}
+		}
 		r := Val{x.ctx.Fresh("sprintf", "Str"), tString}
 		return []Val{r}
 	case "fmt.Errorf", "errors.New":
@@ -751,11 +793,35 @@ func (x *Exec) libCall(env *evalEnv, n *ast.CallExpr, fn *types.Func, full strin
 	case "sort.SliceStable", "sort.Slice":
 		return x.sortModel(env, n)
 	}
-	// default: evaluate args (for their obligations), return fresh values; external code is assumed not to touch repo state
-	x.evalArgs(env, n)
-	if recvExpr != nil {
-		x.expr(env, recvExpr)
+	// pure library packages: results are deterministic (uninterpreted) functions of the arguments
+	if fn.Pkg() != nil && recvExpr == nil {
+		switch fn.Pkg().Path() {
+		case "strings", "strconv", "unicode", "unicode/utf8":
+			args := x.evalArgs(env, n)
+			var rs []Val
+			ok := true
+			for i := 0; i < sig.Results().Len(); i++ {
+				rt := sig.Results().At(i).Type()
+				t, good := x.pureExt(fmt.Sprintf("%s_%s_%d", fn.Pkg().Name(), fn.Name(), i), args, rt)
+				if !good {
+					ok = false
+					break
+				}
+				rs = append(rs, Val{t, rt})
+			}
+			if ok {
+				return rs
+			}
+		}
 	}
+	// default: evaluate args (for their obligations), return fresh values; external code is assumed not to touch repo state
+	xargs := x.evalArgs(env, n)
+	var xrecv *Val
+	if recvExpr != nil {
+		r := x.expr(env, recvExpr)
+		xrecv = &r
+	}
+	x.logExt(shortFuncName(fn), xrecv, xargs)
 	x.effects = append(x.effects, effectEvent{Name: "ext:" + full, Pos: n.Pos(), St: x.st})
 	x.unmodelled = append(x.unmodelled, "external call "+full+" (results unconstrained, assumed not to modify repository state)")
 	return x.freshResults(sig, "ext")
@@ -860,4 +926,54 @@ func (x *Exec) appendBid(s Val) string {
 	x.st.assume("(>= " + na + " " + x.st.alloc + ")")
 	x.st.alloc = na
 	return b
+}
+
+// pureExt: uninterpreted function application for a pure external function (declared on demand by name and sorts)
+func (x *Exec) pureExt(name string, args []Val, rt types.Type) (string, bool) {
+	var sorts, terms []string
+	for _, a := range args {
+		if a.Ty == nil {
+			return "", false
+		}
+		sorts = append(sorts, x.ctx.Sort(a.Ty))
+		terms = append(terms, a.S)
+	}
+	fname := "ext_" + sanitize(name) + "_" + mangle(strings.Join(sorts, "_"))
+	x.ctx.decl("fun:"+fname, fmt.Sprintf("(declare-fun %s (%s) %s)", fname, strings.Join(sorts, " "), x.ctx.Sort(rt)))
+	if len(terms) == 0 {
+		return fname, true
+	}
+	return "(" + fname + " " + strings.Join(terms, " ") + ")", true
+}
+
+// logExt: ghost log of calls into external packages (when the package declares "ghostvar xlen int"):
+// xlog_fn(i) is the callee, xlog_recv(i) the receiver, xlog_str/int(i, k) the k-th string / integer argument
+func (x *Exec) logExt(name string, recv *Val, args []Val) {
+	g, ok := x.st.ghost["xlen"]
+	if !ok {
+		return
+	}
+	x.ctx.decl("fun:xlog_fn", "(declare-fun xlog_fn (Int) Str)")
+	x.ctx.decl("fun:xlog_recv", "(declare-fun xlog_recv (Int) Int)")
+	x.ctx.decl("fun:xlog_int", "(declare-fun xlog_int (Int Int) Int)")
+	x.ctx.decl("fun:xlog_str", "(declare-fun xlog_str (Int Int) Str)")
+	x.st.assume(eq("(xlog_fn "+g.S+")", x.ctx.StrLit(name)))
+	if recv != nil && recv.Ty != nil && x.ctx.Sort(recv.Ty) == "Int" {
+		x.st.assume(eq("(xlog_recv "+g.S+")", recv.S))
+	}
+	for k, a := range args {
+		if a.Ty == nil {
+			continue
+		}
+		switch x.ctx.Sort(a.Ty) {
+		case "Int":
+			x.st.assume(eq(fmt.Sprintf("(xlog_int %s %d)", g.S, k), a.S))
+		case "Str":
+			x.st.assume(eq(fmt.Sprintf("(xlog_str %s %d)", g.S, k), a.S))
+		case "Mp_Str_Str":
+			x.ctx.decl("fun:xlog_mapss", "(declare-fun xlog_mapss (Int Int) Mp_Str_Str)")
+			x.st.assume(eq(fmt.Sprintf("(xlog_mapss %s %d)", g.S, k), a.S))
+		}
+	}
+	x.st.ghost["xlen"] = Val{"(+ " + g.S + " 1)", tInt}
 }
